@@ -128,6 +128,9 @@ def to_val(v, top=True):
         return {"s": v}
     if isinstance(v, dict) and "dc" in v:
         return {"r": [to_val(x, False) for x in v["f"]]}
+    if isinstance(v, list):
+        # a list of actions / edition names: placeholders are filled in its members like anywhere else
+        return {"r": [to_val(x, False) for x in v]}
     return {"a": json.dumps(v, sort_keys=True, ensure_ascii=False)}
 
 
